@@ -56,7 +56,7 @@ def run(ctx, rep):
     rep.trusted = ['syn', 'astq evaluator', 'optional-idiom table from the property statement']
     T = emit.Types(ctx.astq)
     # ---- O1 parser
-    pr.all_attrs_rule(ctx, rep, 'O1')
+    pr.all_attrs_rule(ctx, rep, 'O1', ('serde_default',), 2)
     sites = pr.field_sites(ctx)
     rep.floor('O1', 'RustField construction sites', len(sites), 2)
     for f, st in sites:
@@ -94,7 +94,7 @@ def run(ctx, rep):
         for fname in fnames:
             f = ctx.fn(f'{struct}::{fname}', file=file)
             for s in f['sites']:
-                has_field_id = any(c.startswith('RustField.id') for c in emit.canons_in(T, s['fmt']))
+                has_field_id = any(c.startswith('RustField.id') for c in emit.canons_in_deep(T, s['fmt']))
                 has_type = any(c.get('f') == 'format_type' for c in vt.calls_in(s['fmt']))
                 if not (has_field_id and has_type):
                     continue
@@ -111,7 +111,7 @@ def run(ctx, rep):
                             if dbl:
                                 t = w.replace('\x00', t)
                             return [t]
-                        R = guards.Renderer(T, asg, type_hook=hook, inline=inline)
+                        R = guards.Renderer(T, asg, type_hook=hook, inline=dict(emit.object_helpers(T, s['fmt']), **inline))
                         texts = R.render(s['fmt'])
                         n_eval += len(texts)
                         optional = bool(opt or dflt)
